@@ -65,6 +65,15 @@ def run_property(pid, tier, jobs, verbose=False, record_baseline=False):
         ctx = mp.get_context("fork")
         with ctx.Pool(min(jobs, max(1, len(jobs_list))), initializer=cli._worker_init) as pool:
             fn_reports = pool.map(cli._verify_one, jobs_list, chunksize=1)
+    # obligations left undecided are retried once, alone (no contention from the pool) and with a 4x budget, before any
+    # verdict is drawn from them: a timeout must never turn into an alarm
+    retry_keys = [fr["key"] for fr in fn_reports if any(o["status"] == "unknown" for o in fr["obligations"]) and fr["status"] == "ok"]
+    if retry_keys:
+        cli._worker_init()
+        redone = {}
+        for k in retry_keys[:6]:
+            redone[k] = cli._verify_one((k, timeout_ms * 4, opaque))
+        fn_reports = [redone.get(fr["key"], fr) for fr in fn_reports]
     # property-specific extra obligations (lemmas, AST-level frame scans, Lean lemmas ...)
     extra = []
     if pmod is not None and hasattr(pmod, "extra_obligations"):
